@@ -113,7 +113,7 @@ FamP == {[id |-> "P", cmd |-> c, inp |-> {"yaml", "FORCE_SETS"},
 FamX == {[id |-> "X", cmd |-> c, inp |-> i, s |-> [SBase EXCEPT !.bulk_only = b, !.calcs_ok = k, !.band_hdf5 = h]] :
          c \\in AuxCmds, b \\in B, k \\in B, h \\in B,
          i \\in SUBSET {"e-v.dat", "thermal_properties_set", "infile", "outfile", "band.yaml", "band.hdf5",
-                       "thermal_properties.yaml"}}
+                       "thermal_properties.yaml", "OUTCAR", "POSCAR"}}
 MCWCases == FamA \\cup FamN \\cup FamF \\cup FamM \\cup FamP \\cup FamX
 MCInstalled == {"traditional"}
 ====
@@ -1313,7 +1313,9 @@ def run_aux_case(ctx, su, cs, argv, cid, casedir, jobs):
     # phonopy-bandplot --gnuplot ends with sys.exit(1) after printing the data: judged by what it printed
     ok = (r["exc"] is None) and (r["code"] == 0 or (cs.cmd == "bandplot" and "stdout" in out))
     if cs.cmd == "bandplot" and "stdout" in out and r["code"] != 0:
-        ctx.extra.setdefault("aux_traits", set()).add("phonopy-bandplot --gnuplot exits with status %s after printing the data" % r["code"])
+        t = "phonopy-bandplot --gnuplot exits with status %s after printing the data" % r["code"]
+        if t not in ctx.extra.setdefault("aux_traits", []):
+            ctx.extra["aux_traits"].append(t)
     from harness import c17_io
 
     jobs.append(dict(id=cid, cmd=cs.cmd, argv=argv, inp=inp, s=s, st=None, confs=None, yaml_file=None, indir=indir,
@@ -1370,6 +1372,19 @@ def aux_cases(su, add, L, M, band):
     add("rm-qha", "load", None, before=lambda su: [os.remove(os.path.join(su.dir, f)) for f in os.listdir(su.dir)
                                                    if f.endswith(".dat") and f not in ("total_dos.dat", "projected_dos.dat")
                                                    or f.startswith("tp-")])
+    # phonopy-vasp-born --outcar (a tensor field that is not symmetric: symmetrisation is visible)
+    if su.calc == "vasp":
+        def write_outcar(su):
+            rng = np.random.default_rng(5)
+            nat = len(su.symbols)
+            z = np.array([np.eye(3) * (1.1 if s_ == "Na" else -1.1) for s_ in su.symbols]) + 0.05 * rng.normal(size=(nat, 3, 3))
+            AUXMOD.write_outcar(os.path.join(su.dir, "OUTCAR"), z, np.eye(3) * 2.43 + 0.05 * rng.normal(size=(3, 3)))
+
+        add("write-OUTCAR", "load", None, before=write_outcar)
+        add("vasp-born", "vaspborn", ["--outcar", "OUTCAR", su.cellfile])
+        add("vasp-born-nost", "vaspborn", ["--outcar", "--nost", "OUTCAR", su.cellfile])
+        add("vasp-born-missing", "vaspborn", ["--outcar", "OUTCAR.nothere", su.cellfile])
+        add("rm-OUTCAR", "load", None, before=lambda su: os.remove(os.path.join(su.dir, "OUTCAR")))
     # phonopy-calc-convert
     for tgt in ("abinit", "aims", "castep", "dftbp", "lammps", "pwmat", "vasp"):
         if tgt != su.calc:
